@@ -149,6 +149,9 @@ def transitions(ntags):
         ops.append(('popN', i))
         ops.append(('delN', i))
         ops.append(('setN', i, 2))
+    # deletion of slices (forward, backward, stepped, empty and inverted ranges)
+    for a_, b_, st_ in itertools.product((None, -2, 0, 1, 3), (None, -2, 0, 1, 3), (None, 1, -1, 2, -2)):
+        ops.append(('delS', a_, b_, st_))
     # extend by a plain Python iterable of objects whose LAST item is unacceptable: refused, and refused before anything was stored
     for v in range(4):
         ops.append(('extendL', v))
@@ -190,6 +193,8 @@ def ref_apply(tags, op):
         l.reverse()
     elif k == 'clear':
         l.clear()
+    elif k == 'delS':
+        del l[slice(op[1], op[2], op[3])]
     elif k == 'insertN':
         l.insert(op[1], op[2])
     elif k == 'popN':
@@ -230,6 +235,9 @@ def lib_apply(m, o, op):
         return None
     if k == 'setF':
         o[op[1]] = foreign(m.cname)[op[2]][1]
+        return None
+    if k == 'delS':
+        del o[slice(op[1], op[2], op[3])]
         return None
     if k == 'insertN':
         return o.insert(np.int64(op[1]), m.build((op[2],)))
